@@ -12,8 +12,13 @@ import (
 func (core *JApiCore) scanProject() (je *jerr.JApiError) {
 	defer func() {
 		// We might get an error during scanning included file, and we should return
-		// correct error in that case.
-		core.scannersStack.AddIncludeTraceToError(je)
+		// correct error in that case. The stack of suspended scanners is the include
+		// trace of the file being scanned only: an error about a directive of another
+		// file (one that was still pending when an INCLUDE switched files) carries the
+		// trace captured when that directive was scanned, which is empty for the root file.
+		if je != nil && je.File == core.scanner.File() {
+			core.scannersStack.AddIncludeTraceToError(je)
+		}
 	}()
 
 	for {
